@@ -47,9 +47,11 @@ ASSUMPTIONS = [
     'the theorems are about flatten_raw (the structural part of instance()); the value part (interpolation of the stored '
     'variables / blueprints / environments, conversion of typed leaves) is modelled (finish) and tied by the '
     'correspondence but only its conversion step and the closed-string case of interpolation are covered by theorems',
-    'the idempotence theorems (store.load.store = store) are per section of the structural part and assume the side layers '
-    'of a component are `clean` (no stage/override/$import/repeatInterval/isRepeat in blueprints and platform override); the '
-    'complement for repeatInterval is the open finding F7d',
+    'the idempotence theorems (store.load.store = store, per section and assembled for the whole document) are about the '
+    'structural part, conditional on the second flattening succeeding, and assume the side layers of a component are `clean` '
+    '(no stage/override/$import in blueprints and platform override; a repeatInterval there is allowed since F7d was repaired)',
+    'direct references into manifest (:link / :copy) top-level folders: the model stores references verbatim; that they are '
+    'still read as references to folders after the reload is checked on the implementation only (references, edges, reload)',
     'DoWhile instances (loop iterations before the reload) are covered by the predicate on the implementation only',
     'output / status-report / virtual-environments / application-dependencies / interface sections are left empty by the '
     'generator and not modelled',
@@ -570,7 +572,10 @@ def run(ctx):
                 'consumer, aggregating consumer), 14 schema-valid options x 11 layers and 8 variables x 15 layers (C04 '
                 'layer slots: default/platform/foreign global+stage blueprints and variables, two user variable files, '
                 'component, override per platform), environments e/f with 4 keys on every platform independently, '
-                'YAML-trap strings as variable values, 15% with a variable only a foreign platform defines; plus DoWhile packages of the C05 '
+                'YAML-trap strings as variable values, 15% with a variable only a foreign platform defines, 12% with stage (and global) '
+                'variables holding %(replica)s next to another reference that the component often shadows (all consumers replicated), 20% '
+                'as one FlowIR file + manifest with :link / :copy top-level folders and direct references into them (40% of those next to a '
+                'component named like a folder), 6% with a repeatInterval in a blueprint / override layer; plus DoWhile packages of the C05 '
                 'generator with k = 0..3 (quick) further iterations stored before the reload; every case: create the '
                 'instance, reload twice; non-trivial = selected platform is not default and >= 2 options/variables are '
                 'defined by >= 2 layers of that platform, or a loop with >= 1 further iteration; distinct by the case')
